@@ -6,6 +6,8 @@
 #include <asam_cmp/can_payload.h>
 #include <asam_cmp/capture_module_payload.h>
 #include <asam_cmp/interface_payload.h>
+#include <asam_cmp/decoder.h>
+#include <asam_cmp/encoder.h>
 #include <asam_cmp/status.h>
 
 #include "driver.h"
@@ -126,6 +128,24 @@ Packet dataPacket(uint16_t dev, uint64_t ts)
     return p;
 }
 
+// the packet as it arrives after travelling Encoder -> frames -> Decoder (segmented and reassembled when it does not fit a small frame)
+Packet viaWire(const Packet& p, size_t max)
+{
+    ASAM::CMP::Encoder enc;
+    enc.setDeviceId(p.getDeviceId());
+    enc.setStreamId(p.getStreamId());
+    ASAM::CMP::DataContext ctx;
+    ctx.minBytesPerMessage = 0;
+    ctx.maxBytesPerMessage = max;
+    auto frames = enc.encode(p, ctx);
+    ASAM::CMP::Decoder dec;
+    std::shared_ptr<Packet> out;
+    for (auto& f : frames)
+        for (auto& q : dec.decode(f.data(), f.size()))
+            out = q;
+    return out ? *out : p;
+}
+
 void apply(Status& st, Model& m, const Op& o, uint64_t ts)
 {
     uint16_t dev = kDevs[o.d];
@@ -134,6 +154,8 @@ void apply(Status& st, Model& m, const Op& o, uint64_t ts)
         case 0:
         {
             Packet p = cmPacket(dev, ts);
+            if (ts % 5 == 2)
+                p = viaWire(p, ts % 2 ? 64 : 1500);
             st.update(p);
             m[dev].cm = snapPacket(p);
             break;
@@ -141,6 +163,8 @@ void apply(Status& st, Model& m, const Op& o, uint64_t ts)
         case 1:
         {
             Packet p = ifPacket(dev, kIfs[o.i], ts);
+            if (ts % 5 == 3)
+                p = viaWire(p, ts % 2 ? 64 : 1500);
             st.update(p);
             auto it = m.find(dev);
             if (it != m.end())
@@ -336,6 +360,20 @@ void randomCase(Ctx& c, long idx)
         apply(st, m, A[k], static_cast<uint64_t>(idx) * 1000 + static_cast<uint64_t>(i) + 1);
         compare(c, st, m, path);
         c.sig(mix64(before, k));
+        if (i % 23 == 22 && st.getDeviceStatusCount() > 0)
+        {
+            // feeding the tracker one of its own stored packets (through the non-const accessors) changes nothing
+            size_t di = r.below(st.getDeviceStatusCount());
+            ASAM::CMP::DeviceStatus& ds = st.getDeviceStatus(di);
+            Packet& own = ds.getPacket();
+            st.update(own);
+            if (ds.getInterfaceStatusCount() > 0)
+            {
+                Packet& ownIf = ds.getInterfaceStatus(r.below(ds.getInterfaceStatusCount())).getPacket();
+                st.update(ownIf);
+            }
+            compare(c, st, m, path + "[own packets fed back]");
+        }
         // a const copy and an assigned copy must show the same state
         if (i % 50 == 49)
         {
